@@ -115,4 +115,39 @@ PROPS = {
         "assumptions": ["a UDP datagram has at most 65535 bytes and recv_from writes it to the beginning of the buffer and returns its length",
                         "the decoder is a function of the bytes it is handed (no hidden state)"],
     },
+    "C13": {
+        "props_files": ["C13"],
+        "theorems": ["C13_request_refines_spec", "C13_failed_request_changes_nothing", "C13_one_response_per_request_in_order",
+                     "C13_first_failure_stops_execution", "C13_all_executed_without_failure", "C13_cases_exhaustive",
+                     "C13_loop_total", "C13_tree_stays_tree"],
+        "components": ["fsmodel"],
+        "rule": "cases = batches of request lists / request histories on a real NativeFileStore in a temporary directory initialised to "
+                "{f1, f2, d1/, d1/f}. X: a whole request list carried by a Metadata PDU into a real RecvTransaction (unacknowledged, no file) "
+                "and executed by the receiver's own fail-the-rest loop when the EOF arrives; statuses read from the Finished indication, then "
+                "the sorted recursive listing with contents. Every list of up to 3 requests over 57 requests (6 single-name actions x "
+                "{f1, f2, d1, d1/f, missing, nested/missing} + 3 two-name actions x 7 pairs); thorough adds every list of 4 over 28 requests; "
+                "random lists of up to 30 requests (70% chosen to satisfy their precondition on the predicted state). Q: direct process_request "
+                "histories of up to 30 requests with status and listing after every request, 20% adversarial names ('', '.', '..', trailing "
+                "separators, a file used as a directory, absolute and root-prefixed names, spaces, non-ASCII); non-trivial = at least 2 "
+                "operations; distinct = distinct op-list text",
+        "explanation": "Theorems over Model/FsModel.v for every tree, every request and every request list (case analysis over the actions, "
+                       "induction over the list); model tied to filestore.rs and recv.rs by differential execution of the extracted model against "
+                       "the real NativeFileStore and the real RecvTransaction loop; oracle on the implementation alone: an independent Rust "
+                       "transcription of the Blue Book's precondition/effect table applied to the listing observed before each request.",
+        "level_text": "Full proof on the model, relative to the std::fs oracle: process_request returns exactly the status the declarative table "
+                      "assigns to the current tree (success iff the precondition holds, the specific failure code otherwise), a successful "
+                      "request changes exactly the locations the specification names, any other status leaves the tree unchanged; the loop returns "
+                      "one response per request in order, executes the requests up to and including the first failure, reports every later one "
+                      "NotPerformed without effect, and always terminates; trees stay well-formed. Tied to the code by bounded-exhaustive and "
+                      "random request lists run through the real receiver loop. This is the right level for the filestore clauses of the property, "
+                      "which quantify over all request sequences.",
+        "level_note": "NOT covered yet (to be added on top of this component with the Recv/Send transaction models): that the list runs only after "
+                      "a successful delivery and only once per transaction, and that the same responses reach the Finished PDU and the sending "
+                      "user. Trusted: Coq kernel; extraction; driver/harness; the behaviour of std::fs on a directory tree as modelled in "
+                      "FsModel.v (compared with the real filesystem on every run, not proved); path resolution per C12.",
+        "assumptions": ["std::fs behaves on the tree as modelled: no permission failures, no symbolic links, no concurrent modification, a failing "
+                        "call changes nothing",
+                        "the filestore root is absolute and already normal, and the directory containing it exists",
+                        "Deny on a missing target reports NotAllowed (pinned by the repository's own tests)"],
+    },
 }
